@@ -278,7 +278,8 @@ class SimulatorResult:
         indices = rand.choice(
             range(len(values)), p=weights, size=override_repetitions or self.repetitions()
         )
-        rand_values = np.array(values)[indices]
+        # Plain Python integers: outcome values of wide registers do not fit a machine word.
+        rand_values = [values[i] for i in indices]
         for key, targets in self.measurement_dict().items():
             bits = [
                 [(value >> (self.num_qubits() - target - 1)) & 1 for target in targets]
